@@ -177,6 +177,7 @@ class FnSpec:
         self.after = []
         self.replace = []    # (k, pattern, [lines])
         self.unsafe_stub = {}  # k -> [lines]
+        self.tail = []
         self.sig_only = False
 
 
@@ -270,6 +271,9 @@ class Generator:
                 cur = spec.contract
             elif s.startswith("//@entry"):
                 cur = spec.entry
+            elif s.startswith("//@tail"):
+                # R14: the body block's value is bound to `__ret` so a proof block can follow it
+                cur = spec.tail
             elif s.startswith("//@loop "):
                 ps = s.split()
                 k = int(ps[1])
@@ -374,6 +378,9 @@ class Generator:
             self.emit("    let ghost __valid: bool = %s;" % spec.valid)
         for ln in spec.entry:
             self.emit(ln)
+        if spec.tail:
+            self.count("R14-tail-binding")
+            self.emit("    let __ret = {")
         # emit body with origins
         text = text_of(body)
         line = sf.ct[it.body_open].line
@@ -390,6 +397,11 @@ class Generator:
                         cur_line = t.line + (k if t.kind not in ("synth",) else 0)
                     cur += p
         self.out.append((cur, (spec.file, cur_line) if cur_line else None))
+        if spec.tail:
+            self.emit("    };")
+            for ln in spec.tail:
+                self.emit(ln)
+            self.emit("    __ret")
         self.emit("}")
         rec["gen_end"] = len(self.out)
         rec["body_sha"] = hashlib.sha256(norm_text(sf.text[a:b]).encode()).hexdigest()[:12]
